@@ -24,8 +24,8 @@ func init() {
 	Register(&Check{
 		ID:  "C11",
 		Run: runC11,
-		Rule: "every call sequence of length <= L (quick 3, thorough 4) over a per-document menu of (operation, variables) calls, on one parsed executable, for 9 documents rich in the suspected carriers " +
-			"(variables inside list / input-object literals, arguments out of order or omitted, several operations, a fragment spread under two container types, directives on variables, undeclared arguments) x RS/AS/FS; " +
+		Rule: "every call sequence of length <= L (quick 3, thorough 4) over a per-document menu of (operation, variables) calls, on one parsed executable, for 14 documents rich in the suspected carriers " +
+			"(variables inside list / input-object literals, arguments out of order or omitted, several operations, a fragment spread under two container types, directives on variables, undeclared arguments, introspection fragments shared between operations, literals of another kind than the argument type) x RS/AS/FS; " +
 			"oracle: differential with a fresh parse per call + printed form unchanged. distinct = (document, strategy, sequence); non-trivial = sequence has >= 2 different calls",
 		Technique:      "explicit-state exploration of call histories on the real API with a fresh-parse differential oracle (no state merging)",
 		Assumptions:    []string{"the fresh parse is resolved on the same root as the reused executable, so only the parsed request can carry state between calls"},
@@ -39,18 +39,24 @@ type c11Call struct {
 	Vars map[string]interface{} `json:"vars"`
 }
 
-type c11Doc struct {
+type c11Base struct {
 	Name  string
 	Doc   *world.Doc
 	Calls []c11Call
 }
 
-func c11Docs() []c11Doc {
+type c11Doc struct {
+	c11Base
+	Text string // with Doc == nil: the document as text (introspection, other schemas)
+	Own  bool   // resolved on the C04 roots (one field per input type) instead of the universe
+}
+
+func c11Docs() []c11Base {
 	F, Al := world.F, world.Al
 	V := func(n string) world.VarRef { return world.VarRef(n) }
 	A := func(n string, v interface{}) world.Arg { return world.Arg{Name: n, Value: v} }
 	bases := world.BaseDocs()
-	return []c11Doc{
+	return []c11Base{
 		{"vars-in-literals", &world.Doc{Ops: []*world.Op{{Type: "query", Name: "Q",
 			Vars: []world.VarDef{{Name: "v", Type: "Int", HasDefault: true, Default: 1}, {Name: "s", Type: "String", HasDefault: true, Default: "d"}},
 			Sels: []*world.Sel{
@@ -102,6 +108,40 @@ func c11Docs() []c11Doc {
 			[]c11Call{{"T", nil}, {"T", map[string]interface{}{"a": true}}, {"T", map[string]interface{}{"a": false}}}},
 		{"merged-keys", bases[8], []c11Call{{"", nil}, {"", map[string]interface{}{}}}},
 	}
+}
+
+func c11AllDocs() []c11Doc {
+	var out []c11Doc
+	for _, b := range c11Docs() {
+		out = append(out, c11Doc{c11Base: b})
+	}
+	return append(out,
+		// introspection: two operations share a fragment on __Schema / __Type, one of them selects a field of the fragment once
+		// more with other sub-fields (the two selections merge under one response key)
+		c11Doc{c11Base: c11Base{Name: "introspection-shared-fragments", Calls: []c11Call{{"I1", nil}, {"I2", nil}, {"I3", nil}, {"I4", nil}, {"I5", nil}}}, Text: "query I1 { __schema { ...S types { kind } directives { name } } } query I2 { __schema { ...S } } " +
+			"query I3 { __type(name: \"A\") { ...T fields { type { name } } } } query I4 { __type(name: \"A\") { ...T } } " +
+			"query I5 { a { id } __schema { queryType { name fields { name } } } } " +
+			"fragment S on __Schema { types { name } queryType { name } directives { locations } } fragment T on __Type { name fields { name } interfaces { name } }"},
+		// literals written in another kind than the argument's type (an integer for an ID, a Float, an Int64; a string for an ID;
+		// an enum for ...): coercion may not write its result back into the parsed request
+		c11Doc{c11Base: c11Base{Name: "literals-of-another-kind", Calls: []c11Call{{"", nil}, {"", map[string]interface{}{}}}}, Text: c11KindsText(), Own: true},
+	)
+}
+
+// c11KindsText: every C04 field (9 input types x T and T!) given every literal kind, each under its own response key.
+func c11KindsText() string {
+	var b strings.Builder
+	b.WriteString("{")
+	lits := []string{"5", "-1", "1.5", "\"s\"", "\"7\"", "true", "RED", "{req: 1}", "[5]", "2147483648", "1e3"}
+	for bi := range c04Bases {
+		for w := 0; w < 2; w++ {
+			for li, l := range lits {
+				fmt.Fprintf(&b, " k%d_%d_%d: f%d_%d(x: %s)", bi, w, li, bi, w, l)
+			}
+		}
+	}
+	b.WriteString(" }")
+	return b.String()
 }
 
 var opStart = regexp.MustCompile(`(?m)^(query|mutation|subscription|fragment)\b`)
@@ -173,9 +213,13 @@ func runC11(c *core.Ctx) {
 	}
 	var idx int64
 	completed := true
-	for _, cd := range c11Docs() {
-		text := cd.Doc.Render(world.LOneLine)
-		ft := cd.Doc.Features(s)
+	for _, cd := range c11AllDocs() {
+		text := cd.Text
+		var ft world.DocFeatures
+		if cd.Doc != nil {
+			text = cd.Doc.Render(world.LOneLine)
+			ft = cd.Doc.Features(s)
+		}
 		for _, nc := range cfgs {
 			if nc.Cfg.Strat != world.FS && (ft.UnionField || ft.AbstractCond) && cd.Name != "shared-fragment-two-containers" {
 				continue
@@ -223,9 +267,15 @@ func c11Run(c *core.Ctx, cd c11Doc, nc namedCfg, g *world.Graph, text string, se
 	if len(distinctCalls) >= 2 {
 		c.Nontrivial()
 	}
-	root, run, err := world.BuildRoot(nc.Cfg, g)
-	if err != nil {
-		panic(core.EngineError{Msg: err.Error()})
+	var root *ggql.Root
+	var run *world.Run
+	if cd.Own {
+		root, _ = c04Root(nc.Cfg.Strat, c04SDL())
+	} else {
+		var err error
+		if root, run, err = world.BuildRoot(nc.Cfg, g); err != nil {
+			panic(core.EngineError{Msg: err.Error()})
+		}
 	}
 	var exe *ggql.Executable
 	var perr error
